@@ -112,3 +112,16 @@ PROPS["C09"] = {
     "outside": "permission lists with several '|' entries or several patterns per entry (grammar covered by c10_parse_permissions); permission changes made mid-session; arbiter registration by user-token sessions",
     "assumptions": ["environment shims", "state digest = every key/value/version/state of every database, watcher counts, connection counters, cluster members, role, snapshot queue, pending operations, replication and supervisor queues"],
 }
+
+PROPS["C08"] = {
+    "level": "model_checking",
+    "harnesses": [
+        {"name": "c08_noninterference", "params": {"quick": {"arglen": 8, "rp": 0}}, "budget_s": {"quick": 900, "thorough": 3600}},
+        {"name": "c08_noninterference_rp", "fn": "c08_noninterference", "params": {"quick": {"arglen": 8, "rp": 1}}, "budget_s": {"quick": 900, "thorough": 3600}, "thorough_only": True},
+        {"name": "c08_token_not_removable"},
+    ],
+    "bounds": {"quick": "self-composition: two servers identical except for the contents of $$ keys ($$s = '7' vs 'x y', another user's token and permission list); one command = any word of the parser table except the login words x 0..3 symbolic space-free tokens of <= 8 chars (long enough to spell $$token / $$user_o) from a database-token session and from a user-token session holding 'rwix *'; reply, every line on the client channel, the $$ keys of both servers, and notifications after an administrator rewrites the secret are compared",
+               "thorough": "same, also with every command wrapped in 'rp <id>'"},
+    "outside": "sequences of several commands; symbolic secrets (a concrete pair of different shape is used); arguments longer than 8 characters",
+    "assumptions": ["environment shims"],
+}
